@@ -163,17 +163,17 @@ package db
 //@ // ===== C10: reads, updates and deletes go through the access-control check first =====================
 //@ func (*collection).exists -> (exists, isDeleted, err)
 //@   assert before call#1 Get: res(checkAccessOfDocWithACP, 1, 0) && res(checkAccessOfDocWithACP, 1, 1) == nil
-//@   assert before call#1 checkAccessOfDocWithACP: arg2 == box(0)
+//@   assert before call#1 checkAccessOfDocWithACP: arg2 == box(acpTypes.DocumentReadPerm)
 //@   ensures res(checkAccessOfDocWithACP, 1, 1) == nil && !res(checkAccessOfDocWithACP, 1, 0) ==> !exists && !isDeleted && err == nil
 //@   tags C10
 //@ func (*collection).update
 //@   assert before call#1 save: res(checkAccessOfDocWithACP, 1, 0) && res(checkAccessOfDocWithACP, 1, 1) == nil
-//@   assert before call#1 checkAccessOfDocWithACP: arg2 == box(1)
+//@   assert before call#1 checkAccessOfDocWithACP: arg2 == box(acpTypes.DocumentUpdatePerm)
 //@   tags C10
 //@ func (*collection).applyDelete
 //@   assert before call#1 AddDelta: res(exists, 1, 0) && !res(exists, 1, 1) && res(exists, 1, 2) == nil
 //@   assert before call#1 AddDelta: res(checkAccessOfDocWithACP, 1, 0) && res(checkAccessOfDocWithACP, 1, 1) == nil
-//@   assert before call#1 checkAccessOfDocWithACP: arg2 == box(2)
+//@   assert before call#1 checkAccessOfDocWithACP: arg2 == box(acpTypes.DocumentDeletePerm)
 //@   tags C10
 //@ apply ErrFlow: (*collection).exists
 //@ func (*collection).exists
